@@ -28,7 +28,7 @@ theorem shape_of_resolve (p : Project) (segs : List PSeg) (loc : Loc) (hr : reso
       · exact .inr ⟨_, _, rfl⟩
       · cases hb
 
-theorem tagService_of_resolve (st : LState) (req : MRReq) (cap : Nat) (loc : Loc)
+theorem w_tagService_of_resolve (st : LState) (req : MRReq) (cap : Nat) (loc : Loc)
     (hr : resolve st.proj req.path = .ok loc)
     (hs : req.service = 0x4D ∨ req.service = 0x53 ∨ req.service = 0x4E) :
     tagService st req cap =
@@ -42,7 +42,7 @@ theorem tagService_of_resolve (st : LState) (req : MRReq) (cap : Nat) (loc : Loc
   rcases shape_of_resolve _ _ _ hr with ⟨nm, rest, rfl⟩ | ⟨i, rest, rfl⟩ <;>
     rcases hs with h | h | h <;> simp [h]
 
-theorem single_of_resolve (st : LState) (req : MRReq) (cap : Nat) (loc : Loc)
+theorem w_single_of_resolve (st : LState) (req : MRReq) (cap : Nat) (loc : Loc)
     (hr : resolve st.proj req.path = .ok loc)
     (hs : req.service = 0x4D ∨ req.service = 0x53 ∨ req.service = 0x4E) :
     single st req cap = tagService st req cap := by
@@ -55,7 +55,7 @@ theorem single_of_resolve (st : LState) (req : MRReq) (cap : Nat) (loc : Loc)
     simp [resolve] at hr
   · rfl
 
-theorem exchange_tag (st : LState) (cap : Nat) (svc : UInt8) (path data : Bytes) (segs : List PSeg) (loc : Loc)
+theorem w_exchange_tag (st : LState) (cap : Nat) (svc : UInt8) (path data : Bytes) (segs : List PSeg) (loc : Loc)
     (hp : Denotes path segs) (hr : resolve st.proj segs = .ok loc)
     (hs : svc.toNat = 0x4D ∨ svc.toNat = 0x53 ∨ svc.toNat = 0x4E) :
     exchange st cap ([svc] ++ path ++ data) =
@@ -67,24 +67,24 @@ theorem exchange_tag (st : LState) (cap : Nat) (svc : UInt8) (path data : Bytes)
   simp only [List.cons_append, List.nil_append, parseMR, h3]
   unfold logixService
   rw [if_neg (by simp only []; omega)]
-  rw [single_of_resolve st _ _ loc hr hs, tagService_of_resolve st _ _ loc hr hs]
+  rw [w_single_of_resolve st _ _ loc hr hs, w_tagService_of_resolve st _ _ loc hr hs]
 
 theorem exchange_4D (st : LState) (cap : Nat) (path data : Bytes) (segs : List PSeg) (loc : Loc)
     (hp : Denotes path segs) (hr : resolve st.proj segs = .ok loc) :
     exchange st cap ([0x4D] ++ path ++ data) = writeTag st loc data false := by
-  rw [exchange_tag st cap 0x4D path data segs loc hp hr (.inl rfl)]
+  rw [w_exchange_tag st cap 0x4D path data segs loc hp hr (.inl rfl)]
   rfl
 
 theorem exchange_53 (st : LState) (cap : Nat) (path data : Bytes) (segs : List PSeg) (loc : Loc)
     (hp : Denotes path segs) (hr : resolve st.proj segs = .ok loc) :
     exchange st cap ([0x53] ++ path ++ data) = writeTag st loc data true := by
-  rw [exchange_tag st cap 0x53 path data segs loc hp hr (.inr (.inl rfl))]
+  rw [w_exchange_tag st cap 0x53 path data segs loc hp hr (.inr (.inl rfl))]
   rfl
 
 theorem exchange_4E (st : LState) (cap : Nat) (path data : Bytes) (segs : List PSeg) (loc : Loc)
     (hp : Denotes path segs) (hr : resolve st.proj segs = .ok loc) :
     exchange st cap ([0x4E] ++ path ++ data) = rmwTag st loc data := by
-  rw [exchange_tag st cap 0x4E path data segs loc hp hr (.inr (.inr rfl))]
+  rw [w_exchange_tag st cap 0x4E path data segs loc hp hr (.inr (.inr rfl))]
   rfl
 
 /-! ### symbol lookup after an update -/
